@@ -187,3 +187,132 @@ class Contains(Family):
         ctx.skolem(z3.And(0 <= u, u < k))
         ctx.add_index(u, rows.fn(u), sc["wit"](rows.fn(u)))
         ctx.prove("post.true wherever a hit was found", out.get(rows.fn(u)))
+
+
+@register
+class CounterCount(Family):
+    """Counter.count: which samples are looked up, and the state update  values'[p] = values[p] + #{hits at flat position p}
+    in each of the four value states (no hit / shared 0 / shared non-zero scalar / per-key array).  The bucket comparison
+    (self._keys[view] == keys[:, None]).nonzero() is replaced by its contract (rows, offsets of the hits)."""
+    name = "Counter.count"
+    qualname = "npstructures.hashtable:Counter.count"
+    serves = ["C12"]
+    assumed = ["callee contracts: RaggedShape.view / RaggedView.__getitem__ (C02), _keys[view] == column, nonzero (C04, C08): (rows, offsets) of the hits",
+               "numpy.bincount contract", "ViewBase.ravel_multi_index (proved in vf.proofs.geometry)"]
+
+    def kinds(self):
+        return ["no-hit", "zero-scalar", "nonzero-scalar", "array"]
+
+    def run(self, ctx, kind):
+        from npstructures.hashtable import Counter
+        from npstructures import RaggedArray
+        from .ragged import sym_shape
+        t = bare_table(Counter)
+        m = z3.Int("mod")
+        ctx.assume(m >= 1)
+        t._mod = SInt(m)
+        kshape = sym_shape(ctx, "keys")                       # the bucketed key array's geometry (m rows)
+        size = kshape.S(kshape.n)
+        q = z3.Int("q")
+        ctx.assume(q >= 0)
+        samples = SymArr.symbolic("samples", q, "int", assume_len=False)
+        h = z3.Int("h")
+        ctx.assume(h >= (0 if kind == "no-hit" else 1))
+        if kind == "no-hit":
+            ctx.assume(h == 0)
+        rows = SymArr.symbolic("rows", h, "int", assume_len=False)
+        offs = SymArr.symbolic("offs", h, "int", assume_len=False)
+        flatpos = SymArr.symbolic("flatpos", h, "int", assume_len=False)
+        ctx.assume_forall("hits address cells of the key array", lambda u: z3.Implies(z3.And(0 <= u, u < h), z3.And(0 <= flatpos.fn(u), flatpos.fn(u) < size)))
+        log = []
+
+        class View:
+            def __init__(s, tag):
+                s.tag = tag
+                s.lengths = SymArr.symbolic("bucketlen", q, "int", assume_len=False) if tag == "all" else None
+
+            def __getitem__(s, mask):
+                log.append(("view[mask]", mask))
+                return View("nonempty")
+
+            def ravel_multi_index(s, rc):
+                log.append(("ravel_multi_index", s.tag, rc))
+                return flatpos
+
+        class Cmp:
+            def nonzero(s):
+                return rows, offs
+
+        class Possible:
+            def __eq__(s, other):
+                log.append(("eq", other))
+                return Cmp()
+
+        class KeyShape:
+            def view(s, hashes):
+                log.append(("shape.view", hashes))
+                return View("all")
+
+        size_v = SInt(size)
+
+        class Keys:
+            _shape = KeyShape()
+            size = size_v
+
+            def __getitem__(s, view):
+                log.append(("keys[view]", view.tag, getattr(view, "empty_removed", None)))
+                return Possible()
+        t._keys = Keys()
+        old_vals = None
+        s0 = z3.Int("s0")
+        if kind == "array":
+            vd = SymArr.symbolic("vals", size, "int", np.int64, assume_len=False)
+            old_vals = vd.snapshot()
+            t._values = RaggedArray(vd, kshape.obj)
+            from .reduce import telescoping
+            telescoping(ctx, kshape, t._values._shape.lengths)
+            ctx.add_index(kshape.n, kshape.n - 1)
+        elif kind == "zero-scalar":
+            t._values = 0
+        elif kind == "nonzero-scalar":
+            t._values = SInt(s0)
+            ctx.assume(s0 != 0)
+        else:
+            t._values = SInt(s0)
+        # the constructed RaggedArray needs the key array's shape object
+        Keys._shape.n_rows = None
+        import npstructures.hashtable as hmod
+        made = []
+        real_RA = hmod.RaggedArray
+
+        def ra_stub(data, shape=None, dtype=None, safe_mode=True):
+            made.append((data, shape, dtype))
+            return ("NEW-VALUES", data)
+        if kind in ("zero-scalar", "nonzero-scalar"):
+            hmod.RaggedArray = ra_stub
+        try:
+            t.count(samples)
+        finally:
+            hmod.RaggedArray = real_RA
+        ctx.prove("post.buckets of all samples are consulted, samples of empty buckets dropped, fast path only after that",
+                  z3.BoolVal(log[0][0] == "shape.view" and log[1][0] == "view[mask]" and log[2] == ("keys[view]", "nonempty", True)))
+        i = z3.Int("i")
+        ctx.skolem(z3.And(0 <= i, i < q))
+        ctx.prove("post.bucket of sample i is its hash", z3.And(0 <= log[0][1].get(i), log[0][1].get(i) < m, (samples.fn(i) - log[0][1].get(i)) % m == 0))
+        if kind == "no-hit":
+            ctx.prove("post.no hit: the state is untouched", z3.BoolVal(t._values.t.eq(s0) and len(log) == 4 and not made))
+            return
+        ctx.prove("post.hits are turned into flat positions of the key array", z3.BoolVal(log[-1][0] == "ravel_multi_index" and log[-1][2][0] is rows and log[-1][2][1] is offs))
+        cnt = ctx.ghost["bincount"][-1]["cnt"]
+        p = z3.Int("p")
+        ctx.skolem(z3.And(0 <= p, p < size))
+        if kind == "array":
+            new = t._values.ravel()
+            ctx.prove("post.values'[p] == values[p] + number of hits at p", new.get(p) == old_vals(p) + cnt(p, h))
+            ctx.prove("post.same value array object and geometry", z3.BoolVal(t._values._shape is kshape.obj))
+        else:
+            data = made[0][0]
+            base = 0 if kind == "zero-scalar" else s0
+            ctx.prove("post.values'[p] == shared value + number of hits at p", data.get(p) == base + cnt(p, h))
+            ctx.prove("post.one value per key cell", dim_term(data.shape_[0]) == size)
+            ctx.prove("post.the new values get the key array's geometry", z3.BoolVal(made[0][1] is Keys._shape and t._values[0] == "NEW-VALUES"))
